@@ -223,6 +223,8 @@ class LCSList(SeqBase):
     def vc_minmax(self, it, is_max, key, default, node):
         s = self.pick(it, 'argmax')
         m = SynNode('anyLCS')
+        # the key function is only ever applied to members of the collection
+        it.ctx.assume(in_lcs(self.a, self.b, self.sr, m.n))
         kv = it.call(key, [s], {}, node)
         km = it.call(key, [m], {}, node)
         c = km.z <= kv.z if is_max else km.z >= kv.z
@@ -508,6 +510,20 @@ def bounded(sess: Session):
     cases, fails = G.sweep('similarity', n)
     sess.add_bounded('wn.similarity.path/wup/lch + taxonomy', f'every labelled digraph with <= {n} nodes x all ordered '
                      f'pairs x simulate_root', cases, 'small-scope enumeration on the real functions', not fails)
+    # res with two lowest common hypernyms of different weight: the maximum information content (smallest weight)
+    import math
+    nodes, w = G.build(((2, 3), (2, 3), (), ()))
+    freq = {p: {None: 10.0} for p in 'nvar'}
+    freq['n'].update({'ss0': 1.0, 'ss1': 1.0, 'ss2': 5.0, 'ss3': 2.0})
+    got = S.res(nodes[0], nodes[1], freq)
+    want = -math.log(2.0 / 10.0)
+    ok = abs(got - want) < 1e-12 and abs(S.res(nodes[1], nodes[0], freq) - want) < 1e-12
+    sess.add_bounded('wn.similarity.res (several lowest common hypernyms)', 'one 4-node graph, weights 5 and 2', 2,
+                     'native execution against the documented maximum', ok)
+    if not ok:
+        sess.violation_direct('wn.similarity.res:maximum-ic', f'res = {got}, the maximum information content of the '
+                              f'common subsumers is {want}', {'graph': '0,1 -> 2,3', 'weights': freq['n']}, True,
+                              functions=('wn.similarity.res',))
     if sess.tier == 'thorough':
         for nn in (5, 6):
             c2, f2 = G.sample('similarity', nn, 2000, seed=sess.seed)
